@@ -12,13 +12,14 @@ package mime
 //@ use @verif/specs/stdlib.spec:stdlib
 //@ use @verif/specs/stdlib.spec:casket_api
 
-//@ unit mime_parse props=C11 nilchecks=on dispenser_variants=on filter=`mime\.mimeParse$`
+//@ unit mime_parse frames=on props=C11 nilchecks=on dispenser_variants=on filter=`mime\.mimeParse$`
 //@ // the parser of the `mime` directive: the extension table it fills is the map it made at the start (never nil),
 //@ // safety and termination for every token sequence
 //@ use casketfile/contracts_verif.go:dispenser_api
 //@ use @verif/specs/stdlib.spec:stdlib
 //@ func validateExt
 //@ func mimeParse
+//@   modifies Dispenser.cursor, Dispenser.nesting, MD:map[string]string, MV:map[string]string
 //@   requires c != nil
 //@   loop 1 invariant c != nil && config.Extensions != nil
 //@   loop 2 invariant c != nil && config.Extensions != nil
